@@ -18,7 +18,7 @@
 //   msg-output/wrong-script/len76                         lib/btc/funcs.go:256  WritePutLen `<=` OP_PUSHDATA1
 //   wrote-tx-although-unfundable/amount-overflow          lib/btc/funcs.go:325,348; wallet/send.go:50,90 (uint64 wrap)
 //   wrote-tx-although-unfundable/f-first-amount-below-fee wallet/send.go:46     `am -= curFee` underflow
-//   no-tx/hang-in-sign_tx/minsig+rfc6979                  wallet/signtx.go:118-139 + lib/btc/ecdsa.go:55-65
+//   no-tx/busy-hang/minsig+rfc6979                        wallet/signtx.go:118-139 + lib/btc/ecdsa.go:55-65
 package main
 
 import (
@@ -294,8 +294,14 @@ func runStep(bin, dir string, w *wcfg, st *state, q *request, step int) *outcome
 	defer flush()
 
 	if pr.timedOut {
+		// evidence of a busy loop: the SIGQUIT dump shows the main goroutine inside sign_tx (the dump
+		// has no stack for a goroutine running on another thread than the one that took the signal),
+		// or the process burned CPU for the whole time (a normal run needs ~0.03 s of CPU)
 		inSign := strings.Contains(pr.quitStack, "main.sign_tx")
-		if mayHang && inSign {
+		busy := func(p procResult, wd time.Duration) bool {
+			return strings.Contains(p.quitStack, "main.sign_tx") || p.cpu > wd/20
+		}
+		if mayHang && busy(pr, wd) {
 			hangConfirmed.Lock()
 			n := hangConfirmed.n
 			hangConfirmed.Unlock()
@@ -304,19 +310,19 @@ func runStep(bin, dir string, w *wcfg, st *state, q *request, step int) *outcome
 				// reproduce once with a three times longer watchdog before calling it a hang
 				os.WriteFile(filepath.Join(dir, "balance", "unspent.txt"), []byte(st.unspTxt), 0o600)
 				pr2 := runWallet(bin, dir, args, 30*time.Second)
-				confirmed = pr2.timedOut && strings.Contains(pr2.quitStack, "main.sign_tx")
+				confirmed = pr2.timedOut && busy(pr2, 30*time.Second)
 			}
 			if confirmed {
 				hangConfirmed.Lock()
 				hangConfirmed.n++
 				hangConfirmed.Unlock()
 				o.hang = true
-				o.v("no-tx/hang-in-sign_tx/minsig+rfc6979", "the wallet never finishes signing (busy loop in sign_tx) when minsig and rfc6979 are both on: the deterministic signature is recomputed forever",
-					map[string]interface{}{"stack": stackOf(pr.quitStack, "main.sign_tx")})
+				o.v("no-tx/busy-hang/minsig+rfc6979", "the wallet never finishes signing (busy loop) when minsig and rfc6979 are both on: the deterministic signature is recomputed forever",
+					map[string]interface{}{"stack": stackOf(pr.quitStack, "main.sign_tx"), "stack_in_sign_tx": inSign, "cpu_s": pr.cpu.Seconds()})
 				return o
 			}
 		}
-		o.incon = append(o.incon, fmt.Sprintf("watchdog (%v) fired for wallet %v", wd, args))
+		o.incon = append(o.incon, fmt.Sprintf("watchdog (%v) fired for wallet %v (minsig+rfc6979=%v, stack in sign_tx=%v, cpu %.2fs)", wd, args, mayHang, inSign, pr.cpu.Seconds()))
 		return o
 	}
 
